@@ -10,6 +10,28 @@ def OwnerInv (st : St) : Prop :=
     joinNames (parts name) = name ∧
     ∃ sum perm emp, lookupT st.tree (parts name) = some (.file sum perm (some j) emp)
 
+/-- the ghost flags that cannot break the owner invariant: a decision that differs from the rule table
+(F07b, F07h) still updates tree and `installedFiles` together, and a kept base file (F07i) changes neither -/
+def Flag.benign : Flag → Bool
+  | .emptyOrigin _ => true
+  | .versioned _ => true
+  | .baseKept _ => true
+  | _ => false
+
+/-- every raised flag is benign -/
+def Benign (x : List Flag) : Prop := ∀ f ∈ x, Flag.benign f = true
+
+theorem Benign_nil : Benign [] := by intro f hf; cases hf
+
+theorem Benign_append {x y : List Flag} : Benign (x ++ y) ↔ Benign x ∧ Benign y := by
+  unfold Benign
+  constructor
+  · intro h; exact ⟨fun f hf => h f (List.mem_append_left _ hf), fun f hf => h f (List.mem_append_right _ hf)⟩
+  · rintro ⟨h1, h2⟩ f hf
+    rcases List.mem_append.1 hf with hf | hf
+    · exact h1 f hf
+    · exact h2 f hf
+
 /-- what one header may do to (tree, installedFiles) when it raises no flag -/
 inductive Shape (i : Nat) (e : Entry) (st st' : St) : Prop
   | same (ht : st'.tree = st.tree) (hi : st'.inst = st.inst)
@@ -140,7 +162,7 @@ theorem overwrite_ne (c : Cfg) (hc : c.spec = false) (got : Pkg) (gs : Text) (wa
 theorem lazyFile_shape (c : Cfg) (hc : c.spec = false) (pkgs : List Pkg) (i : Nat) (e : Entry) (st st' : St) (b : Bool)
     (h : lazyFile c pkgs i e st = .ok (st', b)) (hne : parts e.name ≠ []) (hal : aliasFlag st.tree e = [])
     (hkd : e.kind ≠ .dir) :
-    ∃ x, st'.flags = st.flags ++ x ∧ (x = [] → Shape i e st st') := by
+    ∃ x, st'.flags = st.flags ++ x ∧ (Benign x → Shape i e st st') := by
   unfold lazyFile at h
   dsimp only at h
   split at h
@@ -176,7 +198,8 @@ theorem lazyFile_shape (c : Cfg) (hc : c.spec = false) (pkgs : List Pkg) (i : Na
               by_cases hk : e.kind = .reg
               · exact hk
               · exfalso
-                simp [hc, hk, hsum] at hx
+                have hb := (Benign_append.1 hx).2 (.linkUntracked e.name) (by simp [hc, hk, hsum])
+                simp [Flag.benign] at hb
             refine Shape.wrote hk (by simp [hk]) st.tree (fun _ _ => rfl) ?_
             have : e.kind ≠ .link := by rw [hk]; decide
             simp [this]
@@ -187,8 +210,7 @@ theorem lazyFile_shape (c : Cfg) (hc : c.spec = false) (pkgs : List Pkg) (i : Na
         · cases h
         · split at h
           · cases h
-            refine ⟨_, rfl, fun hx => ?_⟩
-            simp [hc] at hx
+            exact ⟨_, rfl, fun _ => Shape.same rfl rfl⟩
           · cases h
       · rename_i j
         split at h
@@ -202,8 +224,10 @@ theorem lazyFile_shape (c : Cfg) (hc : c.spec = false) (pkgs : List Pkg) (i : Na
             by_cases hk : e.kind = .reg
             · exact hk
             · exfalso
-              simp [hc, hk, hsum] at hx
-              cases hkk : e.kind <;> simp_all
+              have hl : e.kind = .link := by
+                cases hkk : e.kind <;> simp_all
+              have hb := (Benign_append.1 hx).2 (.linkUntracked e.name) (by simp [hc, hl, hsum])
+              simp [Flag.benign] at hb
           refine Shape.wrote hk (by simp [hk]) st.tree (fun _ _ => rfl) ?_
           have : e.kind ≠ .link := by rw [hk]; decide
           simp [this]
@@ -214,7 +238,7 @@ theorem lazyFile_shape (c : Cfg) (hc : c.spec = false) (pkgs : List Pkg) (i : Na
 theorem streamReg_shape (c : Cfg) (pkgs : List Pkg) (i : Nat) (e : Entry) (st st' : St) (b : Bool)
     (h : streamReg c pkgs i e st = .ok (st', b)) (hne : parts e.name ≠ []) (hal : aliasFlag st.tree e = [])
     (hk : e.kind = .reg) :
-    ∃ x, st'.flags = st.flags ++ x ∧ (x = [] → Shape i e st st') := by
+    ∃ x, st'.flags = st.flags ++ x ∧ (Benign x → Shape i e st st') := by
   unfold streamReg at h
   dsimp only at h
   split at h
@@ -246,7 +270,9 @@ theorem streamReg_shape (c : Cfg) (pkgs : List Pkg) (i : Nat) (e : Entry) (st st
       · split at h
         · cases h
         · cases h
-          exact ⟨_, rfl, fun hx => by simp at hx⟩
+          exact ⟨_, rfl, fun hx => by
+            have hb := hx _ (List.mem_singleton.2 rfl)
+            simp [Flag.benign] at hb⟩
     · cases h
 
 
@@ -300,23 +326,35 @@ theorem Shape.congr {i : Nat} {e : Entry} {st st1 st' : St} (ht : st'.tree = st1
 /-- well-formed header name of a file or symlink: a clean relative path with at least one component -/
 def WF (e : Entry) : Prop := e.kind ≠ .dir → (joinNames (parts e.name) = e.name ∧ parts e.name ≠ [])
 
+/-- the alias flag (F07g) is never benign: a benign list of alias flags is empty -/
+theorem aliasFlag_benign {t : Tree} {e : Entry} (h : Benign (aliasFlag t e)) : aliasFlag t e = [] := by
+  unfold aliasFlag at h ⊢
+  split
+  · split
+    · rfl
+    · rename_i hp hd
+      simp only [hp, hd, if_false] at h
+      have := h _ (List.mem_singleton.2 rfl)
+      simp [Flag.benign] at this
+  · rfl
+
 /-- combine "flags only grow" with the shape lemma of the inner function -/
 theorem combine {i : Nat} {e : Entry} {st st1 st' : St} {al : List Flag}
     (ht : st'.tree = st1.tree) (hi : st'.inst = st1.inst) (hfl : st'.flags = st1.flags ++ al)
     (hmono : ∃ x, st1.flags = st.flags ++ x)
-    (hshape : al = [] → ∃ x, st1.flags = st.flags ++ x ∧ (x = [] → Shape i e st st1)) :
-    ∃ x, st'.flags = st.flags ++ x ∧ (x = [] → Shape i e st st') := by
+    (hshape : Benign al → ∃ x, st1.flags = st.flags ++ x ∧ (Benign x → Shape i e st st1)) :
+    ∃ x, st'.flags = st.flags ++ x ∧ (Benign x → Shape i e st st') := by
   obtain ⟨x, hx⟩ := hmono
   refine ⟨x ++ al, by rw [hfl, hx, List.append_assoc], fun h0 => ?_⟩
-  have hx0 : x = [] := List.append_eq_nil_iff.1 h0 |>.1
-  have hal : al = [] := List.append_eq_nil_iff.1 h0 |>.2
+  have hx0 : Benign x := (Benign_append.1 h0).1
+  have hal : Benign al := (Benign_append.1 h0).2
   obtain ⟨x', hx', hs⟩ := hshape hal
   have : x' = x := List.append_cancel_left (hx'.symm.trans hx)
-  exact Shape.congr ht hi (hs (this.trans hx0))
+  exact Shape.congr ht hi (hs (this ▸ hx0))
 
 theorem stepEntry_shape (c : Cfg) (hc : c.spec = false) (pkgs : List Pkg) (i : Nat) (e : Entry) (st st' : St) (b : Bool)
     (h : stepEntry c pkgs i e st = .ok (st', b)) (hwf : WF e) :
-    ∃ x, st'.flags = st.flags ++ x ∧ (x = [] → Shape i e st st') := by
+    ∃ x, st'.flags = st.flags ++ x ∧ (Benign x → Shape i e st st') := by
   unfold stepEntry at h
   split at h
   · -- directory
@@ -332,12 +370,12 @@ theorem stepEntry_shape (c : Cfg) (hc : c.spec = false) (pkgs : List Pkg) (i : N
     split at h
     · obtain ⟨st1, hr, ht, hi, hfl⟩ := addFlags_ok h
       refine combine ht hi hfl (lazyFile_flags _ _ _ _ _ _ _ hr) (fun hal => ?_)
-      exact lazyFile_shape c hc pkgs i e st st1 b hr hne (by simpa using hal) (by rw [hk]; decide)
+      exact lazyFile_shape c hc pkgs i e st st1 b hr hne (aliasFlag_benign (by simpa using hal)) (by rw [hk]; decide)
     · obtain ⟨st1, hr, ht, hi, hfl⟩ := addFlags_ok h
       refine combine ht hi hfl (streamReg_flags _ _ _ _ _ _ _ hr) (fun hal => ?_)
       have hal' : aliasFlag st.tree e = [] := by
         simp only [Bool.false_eq_true, if_false] at hal
-        exact (List.append_eq_nil_iff.1 hal).1
+        exact aliasFlag_benign (Benign_append.1 hal).1
       exact streamReg_shape c pkgs i e st st1 b hr hne hal' hk
   · -- symlink
     rename_i hk
@@ -346,15 +384,15 @@ theorem stepEntry_shape (c : Cfg) (hc : c.spec = false) (pkgs : List Pkg) (i : N
     obtain ⟨st1, hr, ht, hi, hfl⟩ := addFlags_ok h
     split at hr
     · refine combine ht hi hfl (lazyFile_flags _ _ _ _ _ _ _ hr) (fun hal => ?_)
-      exact lazyFile_shape c hc pkgs i e st st1 b hr hne (by simpa using hal) (by rw [hk]; decide)
+      exact lazyFile_shape c hc pkgs i e st st1 b hr hne (aliasFlag_benign (by simpa using hal)) (by rw [hk]; decide)
     · refine combine ht hi hfl (streamLink_flags _ _ _ _ _ _ hr) (fun hal => ?_)
-      obtain ⟨h1, h2⟩ := streamLink_shape c i e st st1 b hr hne (by simpa using hal)
+      obtain ⟨h1, h2⟩ := streamLink_shape c i e st st1 b hr hne (aliasFlag_benign (by simpa using hal))
       exact ⟨[], by simp [h1], fun _ => h2⟩
 
 /-- one header: flags only grow, and if none is raised the invariant is kept -/
 theorem stepEntry_inv (c : Cfg) (hc : c.spec = false) (pkgs : List Pkg) (i : Nat) (e : Entry) (st st' : St) (b : Bool)
     (h : stepEntry c pkgs i e st = .ok (st', b)) (hwf : WF e) :
-    ∃ x, st'.flags = st.flags ++ x ∧ (x = [] → OwnerInv st → OwnerInv st') := by
+    ∃ x, st'.flags = st.flags ++ x ∧ (Benign x → OwnerInv st → OwnerInv st') := by
   obtain ⟨x, hx, hs⟩ := stepEntry_shape c hc pkgs i e st st' b h hwf
   refine ⟨x, hx, fun h0 hI => OwnerInv_of_shape (fun hk => ?_) (hs h0) hI⟩
   exact (hwf (by rw [hk]; decide)).1
@@ -362,7 +400,7 @@ theorem stepEntry_inv (c : Cfg) (hc : c.spec = false) (pkgs : List Pkg) (i : Nat
 theorem installPkg_inv (c : Cfg) (hc : c.spec = false) (pkgs : List Pkg) (i : Nat) :
     ∀ (es : List Entry) (st : St) (files : List Entry) (st' : St) (files' : List Entry),
       installPkg c pkgs i es st files = .ok (st', files') → (∀ e ∈ es, WF e) →
-      ∃ x, st'.flags = st.flags ++ x ∧ (x = [] → OwnerInv st → OwnerInv st') := by
+      ∃ x, st'.flags = st.flags ++ x ∧ (Benign x → OwnerInv st → OwnerInv st') := by
   intro es
   induction es with
   | nil => intro st files st' files' h _; simp [installPkg] at h; obtain ⟨rfl, _⟩ := h; exact ⟨[], by simp, fun _ hI => hI⟩
@@ -375,13 +413,13 @@ theorem installPkg_inv (c : Cfg) (hc : c.spec = false) (pkgs : List Pkg) (i : Na
       obtain ⟨x1, hx1, h1⟩ := stepEntry_inv c hc pkgs i e st st1 app hstep (hwf e (by simp))
       obtain ⟨x2, hx2, h2⟩ := ih st1 _ st' files' h (fun e' he' => hwf e' (by simp [he']))
       refine ⟨x1 ++ x2, by rw [hx2, hx1, List.append_assoc], fun h0 hI => ?_⟩
-      obtain ⟨a, b⟩ := List.append_eq_nil_iff.1 h0
+      obtain ⟨a, b⟩ := Benign_append.1 h0
       exact h2 b (h1 a hI)
 
 theorem installFrom_inv (c : Cfg) (hc : c.spec = false) (pkgs : List Pkg) :
     ∀ (ps : List Pkg) (i : Nat) (st : St) (all : List (List Entry)) (st' : St) (all' : List (List Entry)),
       installFrom c pkgs i ps st all = .ok (st', all') → (∀ p ∈ ps, ∀ e ∈ p.entries, WF e) →
-      ∃ x, st'.flags = st.flags ++ x ∧ (x = [] → OwnerInv st → OwnerInv st') := by
+      ∃ x, st'.flags = st.flags ++ x ∧ (Benign x → OwnerInv st → OwnerInv st') := by
   intro ps
   induction ps with
   | nil => intro i st all st' all' h _; simp [installFrom] at h; obtain ⟨rfl, _⟩ := h; exact ⟨[], by simp, fun _ hI => hI⟩
@@ -394,7 +432,7 @@ theorem installFrom_inv (c : Cfg) (hc : c.spec = false) (pkgs : List Pkg) :
       obtain ⟨x1, hx1, h1⟩ := installPkg_inv c hc pkgs i p.entries st [] st1 files hp (hwf p (by simp))
       obtain ⟨x2, hx2, h2⟩ := ih (i + 1) st1 _ st' all' h (fun q hq => hwf q (by simp [hq]))
       refine ⟨x1 ++ x2, by rw [hx2, hx1, List.append_assoc], fun h0 hI => ?_⟩
-      obtain ⟨a, b⟩ := List.append_eq_nil_iff.1 h0
+      obtain ⟨a, b⟩ := Benign_append.1 h0
       exact h2 b (h1 a hI)
 
 
